@@ -10,10 +10,12 @@ import (
 	"context"
 	"encoding/json"
 	"fmt"
+	"log/slog"
 	"net/http"
 	"net/http/httptest"
 	"sort"
 	"strings"
+	"sync"
 	"testing"
 	"time"
 
@@ -47,6 +49,13 @@ type c10Opts struct {
 	// A1 changes the server's tool list and stays in flight until the debounced list_changed broadcast
 	// has gone out (to every entitled session: standalone streams, never a request's exchange)
 	outOfBand bool
+	// slog: every handler also writes one log record (its tag) through an slog.Logger backed by its
+	// session's LoggingHandler - one handler per session, shared by the session's concurrent requests,
+	// each logging with its own request context.  The record travels like the handler's other
+	// notifications: on the exchange of its own request, once, with its own payload.
+	slog bool
+	// oneSession: only session A exists (two concurrent requests): a smaller system, explored deeper
+	oneSession bool
 }
 
 func c10Messages(rec *httptest.ResponseRecorder) ([]map[string]any, error) {
@@ -100,6 +109,11 @@ func c10TagOf(m map[string]any) (kind, tag string) {
 		return "error", ""
 	}
 	if p, ok := m["params"].(map[string]any); ok {
+		if m["method"] == "notifications/message" {
+			d, _ := p["data"].(map[string]any)
+			t, _ := d["msg"].(string)
+			return "notification", t
+		}
 		t, _ := p["message"].(string)
 		return "notification", t
 	}
@@ -112,7 +126,7 @@ func c10Run(o c10Opts) vs.Verdict {
 	ctl := vs.NewController()
 	gates := map[string]*vs.Gate{}
 	tags := []string{"A1", "A2", "B1", "B2"}
-	if o.dupID {
+	if o.dupID || o.oneSession {
 		tags = []string{"A1", "A2"}
 	}
 	for _, t := range tags {
@@ -127,8 +141,20 @@ func c10Run(o c10Opts) vs.Verdict {
 	s.AddResource(&Resource{URI: c10URI, Name: "shared"}, func(context.Context, *ReadResourceRequest) (*ReadResourceResult, error) {
 		return &ReadResourceResult{}, nil
 	})
+	var lhMu sync.Mutex
+	loggers := map[*ServerSession]*slog.Logger{}
 	AddTool(s, &Tool{Name: "echo"}, func(ctx context.Context, r *CallToolRequest, in c10Args) (*CallToolResult, any, error) {
 		r.Session.NotifyProgress(ctx, &ProgressNotificationParams{ProgressToken: "p", Progress: 1, Message: in.Tag})
+		if o.slog {
+			lhMu.Lock()
+			lg := loggers[r.Session]
+			if lg == nil {
+				lg = slog.New(NewLoggingHandler(r.Session, nil))
+				loggers[r.Session] = lg
+			}
+			lhMu.Unlock()
+			lg.InfoContext(ctx, in.Tag)
+		}
 		if o.outOfBand {
 			r.Session.NotifyProgress(context.Background(), &ProgressNotificationParams{ProgressToken: "p", Progress: 2, Message: in.Tag + ":detached"})
 			if in.Tag == "A1" {
@@ -168,6 +194,9 @@ func c10Run(o c10Opts) vs.Verdict {
 	var cancels []context.CancelFunc
 	if !o.stateless {
 		for _, lbl := range []string{"A", "B"} {
+			if o.oneSession && lbl == "B" {
+				continue
+			}
 			w := post("", `{"jsonrpc":"2.0","id":"i","method":"initialize","params":{"protocolVersion":"2025-06-18","capabilities":{},"clientInfo":{"name":"c","version":"1"}}}`)
 			sids[lbl] = w.Header().Get("Mcp-Session-Id")
 			if w.Code != 200 || sids[lbl] == "" {
@@ -175,6 +204,12 @@ func c10Run(o c10Opts) vs.Verdict {
 				return vs.Verdict{Bad: fmt.Sprintf("initialize failed: %d", w.Code), Sig: "c10 setup"}
 			}
 			post(sids[lbl], `{"jsonrpc":"2.0","method":"notifications/initialized","params":{}}`)
+			if o.slog {
+				if w := post(sids[lbl], `{"jsonrpc":"2.0","id":"l","method":"logging/setLevel","params":{"level":"debug"}}`); w.Code != 200 {
+					ctl.Stop()
+					return vs.Verdict{Bad: fmt.Sprintf("setLevel failed: %d %s", w.Code, w.Body.String()), Sig: "c10 setup"}
+				}
+			}
 			if o.broadcast {
 				if w := post(sids[lbl], `{"jsonrpc":"2.0","id":"s","method":"resources/subscribe","params":{"uri":"`+c10URI+`"}}`); w.Code != 200 {
 					ctl.Stop()
@@ -226,6 +261,15 @@ func c10Run(o c10Opts) vs.Verdict {
 	vs.Quiet(false)
 	// ---- oracle
 	var summary []string
+	logRecords := map[string]int{}
+	countLogs := func(msgs []map[string]any) {
+		for _, m := range msgs {
+			if m["method"] == "notifications/message" {
+				_, tag := c10TagOf(m)
+				logRecords[tag]++
+			}
+		}
+	}
 	for _, p := range posts {
 		if p.rec.Code >= 400 {
 			if !o.dupID {
@@ -240,6 +284,7 @@ func c10Run(o c10Opts) vs.Verdict {
 			continue
 		}
 		responses := 0
+		countLogs(msgs)
 		for _, m := range msgs {
 			kind, tag := c10TagOf(m)
 			switch kind {
@@ -290,6 +335,7 @@ func c10Run(o c10Opts) vs.Verdict {
 			continue
 		}
 		updates := 0
+		countLogs(msgs)
 		for _, m := range msgs {
 			kind, tag := c10TagOf(m)
 			if kind == "response" {
@@ -310,6 +356,13 @@ func c10Run(o c10Opts) vs.Verdict {
 			f.failf("broadcast-lost", "the standalone stream of session %s (subscribed) carries %d resources/updated notifications; %d handlers announced an update", lbl, updates, len(posts))
 		}
 		summary = append(summary, fmt.Sprintf("standalone-%s:%dmsg", lbl, len(msgs)))
+	}
+	if o.slog {
+		for _, p := range posts {
+			if n := logRecords[p.tag]; n != 1 {
+				f.failf("log-record-count", "the log record written while handling %s was delivered %d times (records seen, by payload: %v)", p.tag, n, logRecords)
+			}
+		}
 	}
 	sort.Strings(summary)
 	return f.verdict(strings.Join(summary, " "))
@@ -855,6 +908,7 @@ func TestVerifC10(t *testing.T) {
 		mk("stateful-sse/out-of-band-messages", c10Opts{outOfBand: true}, b),
 		mk("stateful-json/out-of-band-messages", c10Opts{jsonResp: true, outOfBand: true}, b),
 		mk("stateful-sse/broadcast-from-handlers", c10Opts{broadcast: true}, b),
+		mk("stateful-sse/one-session/handlers-log-through-one-slog-handler", c10Opts{slog: true, oneSession: true}, 2),
 		mk("stateful-sse/duplicate-in-flight-id", c10Opts{dupID: true}, env.Pick(2, 3)),
 		mk("stateful-sse+store/duplicate-in-flight-id", c10Opts{dupID: true, store: true}, env.Pick(2, 3)),
 		vs.E1(t, "stateful-sse/server-requests-during-calls", b, vs.Options{}, func() vs.Verdict { return c10ServerRequests(false) }),
@@ -871,7 +925,10 @@ func TestVerifC10(t *testing.T) {
 		vs.E1(t, "stateful-sse+store/notification-while-exchange-is-down", b, vs.Options{}, func() vs.Verdict { return c10NotifyWhileDown(true) }),
 	}
 	if !env.Quick() {
-		scs = append(scs, mk("stateless-json", c10Opts{stateless: true, jsonResp: true}, b), mk("stateful-sse+store", c10Opts{store: true}, b))
+		scs = append(scs, mk("stateless-json", c10Opts{stateless: true, jsonResp: true}, b), mk("stateful-sse+store", c10Opts{store: true}, b),
+			mk("stateful-sse/handlers-log-through-one-slog-handler", c10Opts{slog: true}, b),
+			mk("stateful-json/handlers-log-through-one-slog-handler", c10Opts{slog: true, jsonResp: true}, b),
+			mk("stateful-json/one-session/handlers-log-through-one-slog-handler", c10Opts{slog: true, oneSession: true, jsonResp: true}, 2))
 	}
 	env.Run(scs)
 }
